@@ -4,7 +4,7 @@
 OUT=${1:-/tmp/seedeval}; shift
 HERE=$(pwd)
 mkdir -p $OUT /tmp/sv
-IDS=${@:-$(ls $HERE/seeded | grep -E '^C[0-9]+[ab]$')}
+IDS=${@:-$(ls $HERE/seeded | grep -E '^C[0-9]+[a-z]$')}
 for ID in $IDS; do
   P=${ID:0:3}
   WT=/tmp/sv/$ID
